@@ -42,24 +42,29 @@ def run(ctx):
                              MaxHist=12, MaxBackward=99, Acts={"op", "bw", "zero", "retain", "zeroset"},
                              InitLeaves=[dict(vec=False, rg=True), dict(vec=True, rg=True), dict(vec=False, rg=False)]), 30)]
     else:
-        AG.model_check(rep, "AG_hist_mc", dict(MaxNodes=4, GAlpha={1, -2}, Ops={"add", "mul"}, MaxBackward=3,
+        AG.model_check(rep, "AG_hist_mc", dict(MaxNodes=4, GAlpha={1, -2}, Ops={"add", "mul"}, MaxBackward=2,
                                                Acts={"op", "bw", "zero", "retain", "zeroset"}, InitLeaves=LEAVES2), timeout=7200)
-        runs = [("hist5", dict(MaxNodes=4, GAlpha={-2}, Ops={"add", "mul"}, MaxHist=5, MaxBackward=99,
-                               Acts={"op", "bw", "zero", "retain", "zeroset"}, InitLeaves=LEAVES2), 600000),
-                ("hist6-narrow", dict(MaxNodes=3, GAlpha={-2, 3}, Ops={"mul"}, MaxHist=6, MaxBackward=99,
-                                      Acts={"op", "bw", "zero", "retain"}, InitLeaves=LEAVES2), 600000),
-                ("hist4-vec", dict(MaxNodes=4, GAlpha={-2}, Ops={"add", "mul", "sum", "idx"}, UseVec=True, MaxHist=4, MaxBackward=99,
-                                   Acts={"op", "bw", "zero", "retain"},
-                                   InitLeaves=[dict(vec=True, rg=True), dict(vec=False, rg=True)]), 600000),
-                ("hist6-ctx", dict(MaxNodes=3, GAlpha={-2}, Ops={"mul"}, MaxHist=6, MaxBackward=99, MaxCtx=2,
-                                   Acts={"op", "bw", "ctx", "retain"}, InitLeaves=LEAVES2), 600000)]
+        AG.model_check(rep, "AG_hist_mc3", dict(MaxNodes=3, GAlpha={-2, 1}, Ops={"add", "mul"}, MaxBackward=4,
+                                                Acts={"op", "bw", "zero", "retain", "zeroset"}, InitLeaves=LEAVES2), timeout=7200)
+        # (emission sizes are kept below ~10^6 observations each: the tables live in memory)
+        runs = [("hist4", dict(MaxNodes=4, GAlpha={-2}, Ops={"add", "mul"}, MaxHist=4, MaxBackward=99,
+                               Acts={"op", "bw", "zero", "retain", "zeroset"}, InitLeaves=LEAVES2), None),
+                ("hist5-narrow", dict(MaxNodes=3, GAlpha={-2}, Ops={"mul"}, MaxHist=5, MaxBackward=99,
+                                      Acts={"op", "bw", "zero", "retain"}, InitLeaves=LEAVES2), None),
+                ("hist6-ctx", dict(MaxNodes=3, GAlpha={-2}, Ops={"mul"}, MaxHist=6, MaxBackward=99, MaxCtx=1,
+                                   Acts={"op", "bw", "ctx"}, InitLeaves=LEAVES2), 400000),
+                ("hist4-vec", dict(MaxNodes=4, GAlpha={-2, 3}, Ops={"mul", "sum", "idx", "unbind", "stack"}, UseVec=True, MaxHist=4, MaxBackward=99,
+                                   Acts={"op", "bw", "zero"}, InitLeaves=[dict(vec=True, rg=True)]), None),
+                ("hist4-vec2", dict(MaxNodes=4, GAlpha={-2}, Ops={"add", "mul", "sum", "idx"}, UseVec=True, MaxHist=4, MaxBackward=99,
+                                    Acts={"op", "bw", "zero", "retain"}, InitLeaves=[dict(vec=True, rg=True), dict(vec=False, rg=True)]), 400000)]
         sims = [("sim", dict(MaxNodes=7, GAlpha={1, -2, 3}, Ops={"add", "mul", "sub", "neg", "sq", "sum", "idx", "stack", "unbind", "clone"}, UseVec=True,
                              MaxHist=16, MaxBackward=99, Acts={"op", "bw", "zero", "retain", "zeroset"},
-                             InitLeaves=[dict(vec=False, rg=True), dict(vec=True, rg=True), dict(vec=False, rg=False)]), 20000)]
+                             InitLeaves=[dict(vec=False, rg=True), dict(vec=True, rg=True), dict(vec=False, rg=False)]), 1500)]
     for name, consts, limit in runs:
-        mx, table, c = AG.emit(rep, name, consts)
+        mx, table, c = AG.emit(rep, name, consts, limit=limit, seed=ctx.seed + 1, timeout=20000)
         AG.replay_all(ctx, rep, mx, table, c, KINDS, dtypes=(np.float32,) if ctx.quick else (np.float32, np.float64),
                       label=name + ":", limit=limit)
+        del mx, table
     for name, consts, num in sims:
         mx, table, c = AG.emit(rep, name, consts, simulate="num=%d" % num, depth=80, seed=ctx.seed + 11, workers=1)
         AG.replay_all(ctx, rep, mx, table, c, KINDS, dtypes=(np.float32,), label=name + ":")
